@@ -128,7 +128,14 @@ func (b BugsByCreationTime) Less(i, j int) bool {
 	// by the first sorting using the logical clock. That means that if users
 	// synchronize their bugs regularly, the timestamp will rarely be used, and
 	// should still provide a kinda accurate sorting when needed.
-	return b[i].CreateUnixTime < b[j].CreateUnixTime
+	if b[i].CreateUnixTime != b[j].CreateUnixTime {
+		return b[i].CreateUnixTime < b[j].CreateUnixTime
+	}
+
+	// Still a tie (e.g. bugs created offline on two machines in the same second): the id gives
+	// a total order, so that the same list comes out of every request. The excerpts are collected
+	// from a map: without this, tied bugs change places between two pages of one listing.
+	return b[i].id < b[j].id
 }
 
 func (b BugsByCreationTime) Swap(i, j int) {
@@ -156,7 +163,12 @@ func (b BugsByEditTime) Less(i, j int) bool {
 	// by the first sorting using the logical clock. That means that if users
 	// synchronize their bugs regularly, the timestamp will rarely be used, and
 	// should still provide a kinda accurate sorting when needed.
-	return b[i].EditUnixTime < b[j].EditUnixTime
+	if b[i].EditUnixTime != b[j].EditUnixTime {
+		return b[i].EditUnixTime < b[j].EditUnixTime
+	}
+
+	// Still a tie: the id gives a total order (see BugsByCreationTime).
+	return b[i].id < b[j].id
 }
 
 func (b BugsByEditTime) Swap(i, j int) {
